@@ -28,6 +28,11 @@ class Cls:
             elif isinstance(st, ast.Assign) and len(st.targets) == 1 and isinstance(st.targets[0], ast.Name):
                 if isinstance(st.value, (ast.Name, ast.Attribute)):
                     self.aliases[st.targets[0].id] = ast.unparse(st.value)
+            elif isinstance(st, ast.Assign) and len(st.targets) == 1 and isinstance(st.targets[0], ast.Tuple) and isinstance(st.value, ast.Tuple) \
+                    and len(st.targets[0].elts) == len(st.value.elts):
+                for t, v in zip(st.targets[0].elts, st.value.elts):          # subs, lambdify = Parametrized.subs, Parametrized.lambdify
+                    if isinstance(t, ast.Name) and isinstance(v, (ast.Name, ast.Attribute)):
+                        self.aliases[t.id] = ast.unparse(v)
 
     def __repr__(self):
         return self.q
